@@ -42,6 +42,8 @@ class Purity:
         self.max_depth = max_depth
         self._memo = {}
         self._active = set()
+        self._callables = []      # stack: callable parameters of the function under analysis (opaque programs)
+        self.opaque_params_alias = False
         self.resolved_calls = 0
         self.unresolved = []
 
@@ -109,6 +111,9 @@ class Purity:
                 return True
             if name in ('zip', 'enumerate', 'reversed', 'iter', 'list', 'tuple'):
                 return any(self.may_alias(a, A, path, cls_key, depth) for a in e.args)
+            if self.opaque_params_alias and self._callables and isinstance(e.func, ast.Name) and e.func.id in self._callables[-1]:
+                # a callable supplied by the caller is an arbitrary program: it may return (a view of) its argument
+                return any(self.may_alias(a, A, path, cls_key, depth) for a in e.args)
             # kawin callee: consult the summaries
             for (tp, tq, tf) in self.targets(path, cls_key, e):
                 summ = self.summary(tp, tq, tf, depth + 1)
@@ -155,6 +160,14 @@ class Purity:
                 cls_key = self.ix.class_key(path, qual.split('.')[0])
             except Exception:
                 cls_key = None
+        called = {U.call_name(c) for c in U.calls(func)}
+        self._callables.append({n for n in names if n in called})
+        try:
+            return self._analyse(path, qual, func, pname, cls_key, depth)
+        finally:
+            self._callables.pop()
+
+    def _analyse(self, path, qual, func, pname, cls_key, depth):
         g = C.build(func)
         IN = {n.id: None for n in g.nodes}
         IN[g.entry.id] = frozenset([pname])
